@@ -5,5 +5,6 @@ CONSTANTS Peers = {"a", "b"}
           MaxEnv = 2
           MaxFire = 1
           MaxDialFail = 1
+          StopOrders = {"cancel-first"}
           Devs = {}
 INVARIANTS TypeOK ScheduledWhileRunning ArmedDelayGrown NoTimerAfterStop NoDialAfterStop ConnectedQuiet
